@@ -244,7 +244,7 @@ func (s *Sink) Close(rule string, exhaustive bool) {
 const gcsPrelude = `From Coq Require Import List NArith ZArith.
 Import ListNotations.
 From Emu.Common Require Import Bytes Str.
-From Emu.GCS Require Import Model Check Oracles Url.
+From Emu.GCS Require Import Model Check Oracles Url Conc ConcCheck.
 `
 
 // ---------- stores ----------
